@@ -30,6 +30,9 @@ type Context interface {
 	GetSessionForRequest(r *http.Request) Session
 	DeleteSessionForConnection(c net.Conn)
 
+	// Deletes the session s, unless another session was stored for its connection key in the meantime
+	DeleteSession(s Session)
+
 	// Returns a list of active connections
 	ActiveConnections() []net.Conn
 
@@ -104,6 +107,15 @@ func (ctx *context) GetSessionForRequest(r *http.Request) Session {
 func (ctx *context) DeleteSessionForConnection(c net.Conn) {
 	key := ctx.GetKey(c)
 	ctx.Delete(key)
+}
+
+func (ctx *context) DeleteSession(s Session) {
+	key := ctx.GetKey(s.Connection())
+	ctx.mutex.Lock()
+	defer ctx.mutex.Unlock()
+	if stored, ok := ctx.storage[key].(Session); ok == true && stored == s {
+		delete(ctx.storage, key)
+	}
 }
 
 // Returns a list of active connections
